@@ -127,7 +127,7 @@ Lemma score_terms_ext (inp : input) (a b : state) :
 Proof.
   intros Hr Hu.
   unfold score_terms, obj_activation, obj_travel_duration, obj_vehicles_duration, obj_unplanned,
-    obj_early, obj_late, obj_min_stops, obj_stop_balance.
+    obj_early, obj_late, obj_min_stops, obj_stop_balance, cap_obj_terms, obj_capacity_excess.
   rewrite Hr. rewrite (sumZ_map_perm (unit_penalty inp) _ _ Hu). reflexivity.
 Qed.
 
@@ -1352,7 +1352,7 @@ Qed.
 (* ================================================================== *)
 
 Definition ex_opts : options :=
-  mkOptions false false false false false false false false false false false 0%Z 1%Z 0%Z 1%Z false 0%Z 0%Z 0%Z 0%Z false.
+  mkOptions false false false false false false false false false false false 0%Z 1%Z 0%Z 1%Z false 0%Z 0%Z 0%Z 0%Z false [].
 Definition ex_mat : list (list Z) :=
   [[0;60;60;60];[60;0;60;60];[60;60;0;60];[60;60;60;0]]%Z.
 (* 2 stops (each picks up 1, stop 0 has a time window), 1 vehicle of capacity 1,
